@@ -21,8 +21,8 @@ REPO = os.environ.get("VERIF_REPO", "/repo")
 
 
 class Harness:
-    def __init__(self, name, fn, quick=None, thorough=None, requires=(), max_paths=(20000, 400000), timeout_ms=(20000, 60000),
-                 wall_s=(150, 1500), clock_modules=(), pattern="", doc="", outside=(), assumptions=(), selfcheck=True,
+    def __init__(self, name, fn, quick=None, thorough=None, requires=(), max_paths=(60000, 1000000), timeout_ms=(20000, 60000),
+                 wall_s=(300, 3000), clock_modules=(), pattern="", doc="", outside=(), assumptions=(), selfcheck=True,
                  merge_minmax=True, allow_unconfirmed=False, tiers=("quick", "thorough")):
         self.name = name
         self.tiers = tuple(tiers)
